@@ -513,6 +513,19 @@ def anchored(ctx, col):
             if isinstance(x, ast.Call) and isinstance(x.func, ast.Attribute) and norm_src(x.func.value) == lab and x.func.attr in ("put", "fill", "__setitem__"):
                 whole.append(x)
         what_r = "after every link the whole linked component carries the label of the component it joined"
+        for x in whole:
+            if isinstance(x, ast.Assign) and isinstance(x.targets[0], ast.Subscript) and norm_src(x.targets[0].value) == lab:
+                v_ = x.value
+                src_v = v_
+                if isinstance(v_, ast.Name):
+                    bs = [y.value for y in ast.walk(lp) if isinstance(y, ast.Assign) and len(y.targets) == 1 and isinstance(y.targets[0], ast.Name) and y.targets[0].id == v_.id]
+                    src_v = bs[0] if len(bs) == 1 else v_
+                is_label = isinstance(src_v, ast.Subscript) and norm_src(src_v.value) == lab
+                is_position = isinstance(src_v, ast.Call) and (dotted(src_v.func) or "").rsplit(".", 1)[-1] in ("argmin", "nanargmin", "argmax")
+                if is_position and not is_label:
+                    col.bad("R-RELABEL", l.qualname, l.loc(x), what_r,
+                            f"`{norm_src(x)}` writes the ROW POSITION of the nearest node (`{norm_src(src_v)[:40]}`) into the label table instead of that node's component label `{lab}[...]`: "
+                            f"the merged component no longer carries the label of the component it joined, so a later root links back into it and closes a cycle", stmt="relabel-value", definite=True)
         if single and not whole:
             col.bad("R-RELABEL", l.qualname, l.loc(single[0]), what_r,
                     f"`{norm_src(single[0])}` changes the label of the linked root's own row only: the nodes below that root keep the old label, so a root that is "
